@@ -24,6 +24,12 @@ def data_to_astropy_table(data, components=None):
 
         values = data[cid]
 
+        # Text that is held in an object array (e.g. columns that come from
+        # pandas) cannot be written to all formats, so we convert it to a
+        # regular string array
+        if values.dtype.kind == 'O' and data.get_kind(cid) == 'categorical':
+            values = values.astype(str)
+
         if mask is not None:
             values = values[mask]
 
